@@ -47,7 +47,8 @@ fn cols_n(n: usize, bin: bool) -> Vec<Column> {
 fn emit_rows(ops: &mut Vec<QOp>, s: &SetSpec, salt: i32) {
     let nc = s.cols.unwrap();
     for r in 0..s.rows {
-        let cells: Vec<Cell> = (0..nc).map(|c| Cell::val(V::I32(salt.wrapping_mul(31).wrapping_add((r * 7 + c) as i32)))).collect();
+        // a NULL now and then, in a pattern that differs from row to row
+        let cells: Vec<Cell> = (0..nc).map(|c| if (r * 5 + c * 3 + salt as usize) % 4 == 3 { Cell::val(V::Null) } else { Cell::val(V::I32(salt.wrapping_mul(31).wrapping_add((r * 7 + c) as i32))) }).collect();
         let last = r + 1 == s.rows;
         match s.style {
             0 => ops.push(QOp::Row(cells, if r % 2 == 0 { RowForm::Owned } else { RowForm::Borrowed })),
@@ -271,9 +272,20 @@ pub fn check_conformance(prop: &'static str, obs: &Obs, preds: &[Option<Vec<PPar
                 match p {
                     Part::Ok(_) => rep.counters.inc("units_ok"),
                     Part::Err(_) => rep.counters.inc("units_err"),
-                    Part::Rows { rows, .. } => {
+                    Part::Rows { rows, cols, .. } => {
                         rep.counters.inc("units_resultset");
                         rep.counters.add("units_rows", rows.len() as u64);
+                        // every row message is a well-formed row of its resultset: exactly one cell per
+                        // advertised column, nothing left over (binary: per the advertised types)
+                        let tf: Vec<(u8, u16)> = cols.iter().map(|c| (c.typ, c.flags)).collect();
+                        for (ri, raw) in rows.iter().enumerate() {
+                            let r = if *k == Kind::Execute { wire::decode_bin_row(raw, &tf).map(|_| ()) } else { wire::decode_text_row(raw, cols.len()).map(|_| ()) };
+                            if let Err(e) = r {
+                                fail("malformed-row", format!("row {} of a {}-column {} resultset is not a well-formed row: {}", ri, cols.len(), if *k == Kind::Execute { "binary" } else { "text" }, e), rep);
+                                return false;
+                            }
+                            rep.counters.inc("rows_checked_for_well_formedness");
+                        }
                     }
                 }
             }
